@@ -64,13 +64,13 @@ variable {w : World γ} {o : Flags}
 
 local notation "w'" => World.withObs w o
 
-theorem flushRemaining_obs {d' : Disp (γ × Flags)} {d : Disp γ} (h : ObsR d' d) (inp : Bytes) (k : Nat) :
+theorem flushRemaining_obs {d' : Disp (γ × Flags)} {d : Disp γ} (h : ObsR true d' d) (inp : Bytes) (k : Nat) :
     (∃ s, d'.flushRemaining inp k = .error (.panic s)) ∨
-    (∃ e' e, d'.flushRemaining inp k = .ok e' ∧ d.flushRemaining inp k = .ok e ∧ ObsR e' e) := by
+    (∃ e' e, d'.flushRemaining inp k = .ok e' ∧ d.flushRemaining inp k = .ok e ∧ ObsR true e' e) := by
   have he : d'.emissionEnabled = d.emissionEnabled := h.emis
   have hr : d.rcs ≤ d'.rcs := h.rcs
-  have hV : ObsV d.flags d'.ctl d.ctl { d'.view with rcs := 0 } { d.view with rcs := 0 } :=
-    ⟨h.ctl, h.flags, h.sticky, h.emis, h.gf', h.gf, h.pa', h.pa, h.tp, h.tp', Nat.le_refl _⟩
+  have hV : ObsV true d.flags d'.ctl d.ctl { d'.view with rcs := 0 } { d.view with rcs := 0 } :=
+    ⟨h.ctl, h.flags, h.sticky, h.sticky', h.emis, h.gf', h.gf, h.pa', h.pa, h.tp, h.tp', Nat.le_refl _⟩
   unfold Disp.flushRemaining
   by_cases hem : d.emissionEnabled = true
   · rw [if_pos (by rw [he]; exact hem), if_pos hem]
@@ -97,7 +97,7 @@ theorem flushRemaining_obs {d' : Disp (γ × Flags)} {d : Disp γ} (h : ObsR d' 
     exact ⟨_, _, rfl, rfl, ObsR.mk' (c' := d'.ctl) (c := d.ctl) (v' := { d'.view with rcs := 0 }) (v := { d.view with rcs := 0 }) rfl rfl rfl rfl hV⟩
 
 theorem SRel.setDisp {s' : Stream (γ × Flags)} {s : Stream γ} (h : SRel s' s) {e' : Disp (γ × Flags)} {e : Disp γ}
-    (he : ObsR e' e) : SRel (s'.setDisp e') (s.setDisp e) := by
+    (he : ObsR true e' e) : SRel (s'.setDisp e') (s.setDisp e) := by
   obtain ⟨⟨a1, a2, a3, a4, a5, ⟨_, b2, b3⟩, a7⟩, h2, h3, h4⟩ := h
   exact ⟨⟨a1, a2, a3, a4, a5, ⟨he, b2, b3⟩, a7⟩, h2, h3, h4⟩
 
@@ -197,7 +197,7 @@ theorem Stream.write_obs (hst : StickyCtl w.ctl) (ht : EmitsChecked w.tbl = true
               ({ t with parser := (t.parser.parse w.env chunk false).1 } : Stream γ) := ⟨hpr, hb1, hc1, hh1⟩
           exact keepTail_obs (hrel2.setDisp hfr) data chunk consumed
 
-theorem finish_obs {d' : Disp (γ × Flags)} {d : Disp γ} (h : ObsR d' d) (inp : Bytes) :
+theorem finish_obs {d' : Disp (γ × Flags)} {d : Disp γ} (h : ObsR true d' d) (inp : Bytes) :
     PanicRes (d'.finish (Model.withObs w.ctl o) inp).2 ∨
     ((d'.finish (Model.withObs w.ctl o) inp).2 = (d.finish w.ctl inp).2 ∧
       (d'.finish (Model.withObs w.ctl o) inp).1.ctl.1 = (d.finish w.ctl inp).1.ctl) := by
@@ -301,7 +301,8 @@ theorem new_rel (hst : StickyCtl w.ctl) (g : γ) (cfg : Settings) :
   refine ObsR.mk' (c' := (g, w.ctl.initialFlags g)) (c := g)
     (v' := ⟨(w.ctl.initialFlags g).join o, true, false, false, false, 0, .data, 0⟩)
     (v := ⟨w.ctl.initialFlags g, true, false, false, false, 0, .data, 0⟩) rfl rfl rfl rfl ?_
-  exact ⟨rfl, ⟨o, rfl⟩, hst.init g, rfl, rfl, rfl, rfl, rfl, fun hh => (by cases hh), fun _ hh => (by cases hh), Nat.le_refl _⟩
+  exact ⟨rfl, ⟨o, rfl⟩, fun _ => hst.init g, Flags.sticky_join (hst.init g), rfl, rfl, rfl, rfl, rfl,
+    fun hh => (by cases hh), fun _ hh => (by cases hh), Nat.le_refl _⟩
 
 end
 
